@@ -1382,9 +1382,27 @@ func (c *c13ctx) guard(f *c13n, depth int) *c13n {
 	return cur
 }
 
+// numeric failing operations directly below a unary plus / minus (the optimizer touches unary nodes: the location
+// of the operand must stay its own) - the failing node is still the operand's
+func (c *c13ctx) underUnary(f c13rt) c13rt {
+	if f.n != f.at || (f.n.typ != "int" && f.n.typ != "any") || f.hint != "" || f.mode != "" {
+		return f
+	}
+	switch f.n.kind {
+	case "binary", "index", "func":
+	default:
+		return f
+	}
+	op := []string{"+", "-", "+"}[c.rng.Intn(3)]
+	return c13rt{n: c13un(op, f.n, f.n.typ), at: f.at}
+}
+
 func (c *c13ctx) runFaults(n int) {
 	for t := 0; t < n; t++ {
 		f := c.failing()
+		if c.rng.Intn(4) == 0 {
+			f = c.underUnary(f)
+		}
 		root := c.guard(f.n, c.rng.Intn(4))
 		toks := root.tokens()
 		ai := c13anchorOf(toks, f.at)
